@@ -10,7 +10,7 @@ SPEC = {
                 3: "stable: AllocateNAT/GetAllocation return the block the subscriber holds until it is released",
                 4: "logged: every assignment / release writes exactly its record, nothing else does, timestamps inside the call; read back, the log yields the table",
                 9: "malformed trace"},
-    "rule": "a case = one ManagerConfig + log mode + operation list run on a real nat.Manager with a real nat.Logger (in-memory writer), every call's result and decoded log lines recorded; concurrent cases = goroutine scripts on the real Manager, observation = all returns + final table + log; distinct = distinct Coq case terms",
+    "rule": "a case = one ManagerConfig + log mode + operation list run on a real nat.Manager with a real nat.Logger (in-memory writer), every call's result and decoded log lines recorded; concurrent cases = goroutine scripts on the real Manager, observation = all returns + final table + log; race cases = 200 barrier-released rounds of 2-16 concurrent AllocateNAT calls for one fresh private IP each; flush cases = allocate/release calls issued while a Flush is held mid-batch by a gate in the harness writer, or beside a continuous flusher; distinct = distinct Coq case terms",
     "assumptions": [
         "guard of the in-guard theorems: effective configuration 1 <= pps, 0 <= start <= end <= 65535 (cfg_okb); outside it NewManager accepts the values and the uint16 conversions wrap (K10b, refuted theorems)",
         "theorems are over sequential histories; concurrent callers are validated by sampled goroutine runs on the real Manager (Go scheduler and memory model outside the Model)",
